@@ -144,10 +144,11 @@ fn generate(cli: &Cli) -> Vec<Seq> {
             };
             conns.push(Conn { peer_ip, header, login: rng.chance(1, 6) });
         }
-        let burst = if i % 2 == 0 {
+        let burst = if i % 4 != 3 {
             let mut b: SocketAddr = "192.0.2.99:5000".parse().expect("addr");
             b.set_port(rng.range(1024, 65000) as u16);
-            Some((b, limit + rng.range(2, 6) as usize))
+            // many simultaneous arrivals: whatever guards the limiter must hold under contention
+            Some((b, limit + rng.range(20, 40) as usize))
         } else {
             None
         };
@@ -470,5 +471,9 @@ pub async fn run_prop(cli: &Cli) -> i32 {
         }
     }
     config_wiring(&mut report).await;
+    if cli.prop == "C13" {
+        // only: is every connection charged to its own effective address, independent of other keys
+        report.retain_violations(|sig| sig.starts_with("refused-although-admissible") || sig.starts_with("served-although-over-limit") || sig.starts_with("burst-admission-count"));
+    }
     report.finish()
 }
